@@ -737,6 +737,12 @@ Proof.
   - split; [apply Inv_drop; exact I | split; [apply wframe_refl | cbn; lia]].
   - destruct (nth_error (net s) i) as [d|] eqn:E; [|split; [exact I | apply sframe_refl]].
     apply Inv_recv; [exact I|]. intros m Hm. eapply (i_net s I); [eapply nth_error_In; exact E | exact Hm].
+  - split; [|split; [apply wframe_refl | cbn; lia]].
+    destruct s as [w r n]. cbn [sw sr net]. rewrite <- (app_nil_r n).
+    pose proof I as [I1 I2 I3 I4 I5 I6 I7 I8 I9 I10 I11 I12]; cbn [sw sr net] in *.
+    apply Inv_rstep with (r := r) (n := n); [exact I | auto | | | | | | | ]; cbn [r_base r_known r_hbc r_anc r_asm r_got]; auto; try lia.
+    + intros sn bv [].
+    + intros d m [].
 Qed.
 
 Theorem Inv_run depth ops : forall s, 0 <= depth -> Inv s -> Inv (run_ops depth s ops).
